@@ -526,3 +526,34 @@ def ob_exception_roundtrip(xi: int, mi: int, carrier: int) -> bool:
         except Exception:
             return False
         return type(back) is type(exc) and str(back) == str(exc)
+
+
+# ------------------------------------------------------------------------------------------------ same short name, two modules
+
+
+@obligation(quick=90, thorough=200,
+            what="two event classes with the SAME __name__ in different modules, loaded through the client envelope WITHOUT a registry, in either "
+                 "order and repeatedly within one process: each comes back as its own class (by qualified name) with its own typed fields — one "
+                 "load must not influence the next",
+            bounds={"class pairs": "EvPlain / EvTyped / StopSub of vlib.h_state vs vlib.h_state_twin", "order": "A,B / B,A / A,B,A", "routes": "default registry, explicit empty registry"})
+def ob_envelope_same_name_classes(ci: int, order: int, explicit: bool) -> bool:
+    """
+    pre: 0 <= ci <= 2 and 0 <= order <= 2
+    post: _
+    """
+    import vlib.h_state as A
+    import vlib.h_state_twin as Bm
+
+    ci, order = cint(ci, 0, 2), cint(order, 0, 2)
+    explicit = True if explicit else False
+    with untraced():
+        name = ("EvPlain", "EvTyped", "StopSub")[ci]
+        a, b = getattr(A, name)(), getattr(Bm, name)()
+        seq = [a, b] if order == 0 else ([b, a] if order == 1 else [a, b, a])
+        for ev in seq:
+            env = EventEnvelopeWithMetadata.from_event(ev)
+            env2 = EventEnvelopeWithMetadata.model_validate_json(env.model_dump_json())
+            back = env2.load_event([]) if explicit else env2.load_event()
+            if type(back) is not type(ev) or not same_event(ev, back):
+                return False
+    return True
